@@ -195,7 +195,7 @@ class Session:
     def enabled(self):
         ev = []
         if self.started:
-            ev += [("print1",), ("print2",), ("printW",), ("log",), ("print0",)]
+            ev += [("print1",), ("print2",), ("printW",), ("log",), ("print0",), ("printS",), ("out",)]
             if self.kind != "status":
                 ev += [("stdout",)]
         else:
@@ -207,6 +207,10 @@ class Session:
         elif self.kind == "progress":
             if len(self.tasks) < H + 1:
                 ev.append(("add_task",))
+            if not self.tasks:
+                ev.append(("add3",))                 # three tasks at once (a frame that can then shrink by two rows)
+            if len(self.tasks) >= 2 and self.tasks[0][3] and self.tasks[1][3]:
+                ev.append(("hide01",))               # two tasks hidden between two refreshes
             for i, t in enumerate(self.tasks[:2]):
                 ev += [("advance", i), ("hide", i), ("show", i), ("remove", i), ("reset", i)]
         elif self.kind == "status":
@@ -217,12 +221,12 @@ class Session:
     def apply(self, ev):
         c, d = self.console, self.disp
         k = ev[0]
-        if k in ("print1", "print2", "printW", "log", "stdout", "print0"):
+        if k in ("print1", "print2", "printW", "log", "stdout", "print0", "printS", "out"):
             self.nprint += 1
             tag = "x%d" % (self.nprint % 3)
             wide = (tag * self.W)[:self.W]
             lines = {"print1": [tag], "print2": [tag, tag + "'"], "printW": [wide], "log": [tag], "print0": [""],
-                     "stdout": [tag]}[k]
+                     "stdout": [tag], "printS": [wide[:-2]], "out": [tag]}[k]
             self.pending_lines = lines
             if k == "print1":
                 c.print(tag)
@@ -234,6 +238,10 @@ class Session:
                 c.log(tag)
             elif k == "print0":
                 c.print()
+            elif k == "printS":
+                c.print(wide[:-2], style="bold")     # a print style is applied after the render hooks have run
+            elif k == "out":
+                c.out(tag)                           # the uncropped, unwrapped output path
             else:
                 print(tag)          # builtin print through the redirected sys.stdout
             self.pending_lines = None
@@ -279,6 +287,12 @@ class Session:
             tid = d.add_task("t%d" % i, total=10)
             self.tasks[-1][0] = tid
             self._rendered()                         # add_task refreshes
+        elif k == "add3":
+            for _ in range(3):
+                self.apply(("add_task",))
+        elif k == "hide01":
+            self.apply(("hide", 0))
+            self.apply(("hide", 1))
         elif k == "advance":
             t = self.tasks[ev[1]]
             d.advance(t[0], 1)
@@ -309,7 +323,7 @@ class Session:
     def on_fault(self, ev):
         """An injected fault escaped from event ev and was caught by the caller (the session goes on).
         Returns False when the history cannot be continued meaningfully (fault inside stop/start)."""
-        if ev[0] in ("stop", "start", "add_task"):
+        if ev[0] in ("stop", "start", "add_task", "add3"):
             # (a fault inside add_task's refresh leaves the task registered but the id counter not advanced, so
             # the next add_task silently replaces it -- task bookkeeping is outside this property; not continued)
             return False
